@@ -89,7 +89,18 @@ impl<T: Clone> TryFrom<&mut Header<T>> for LexFlags {
             ($it:ident, $num_ty: ty) => {
                 header.mark_used(&stringify!($it).to_string());
                 *$it = match header.get(stringify!($it)) {
-                    Some(HeaderValue(_, Value::Setting(Setting::Num(n, _)))) => Some(*n as $num_ty),
+                    Some(HeaderValue(loc, Value::Setting(Setting::Num(n, _)))) => {
+                        match <$num_ty>::try_from(*n) {
+                            Ok(n) => Some(n),
+                            Err(_) => Err(HeaderError {
+                                kind: HeaderErrorKind::ConversionError(
+                                    "LexFlags",
+                                    "Number out of range",
+                                ),
+                                locations: vec![loc.clone()],
+                            })?,
+                        }
+                    }
                     Some(HeaderValue(loc, _)) => Err(HeaderError {
                         kind: HeaderErrorKind::ConversionError("LexFlags", "Expected numeric"),
                         locations: vec![loc.clone()],
